@@ -9,6 +9,7 @@ open BW.Model BW.Spec BW.Model.Stm Driver Driver.Query
 
 structure St where
   uni : List (Nat × Triple) := []
+  views : List (Nat × Triple × TView) := []   -- with the printed forms Go gave (HAVING compares some values by them)
   store : VStore := {}
 
 def showPredV : Pred → String
@@ -48,6 +49,30 @@ def parseKind : String → Option Kind
   | "0" => some .query | "1" => some .insert | "2" => some .delete | "3" => some .create | "4" => some .drop
   | "5" => some .construct | "6" => some .deconstruct | "7" => some .show | _ => none
 
+/-- HAVING of a CONSTRUCT / DECONSTRUCT: the evaluator the engine builds from the collected tokens, on a solution. -/
+def keepOf (S : Strs) (ws : List String) : Row → Option Bool :=
+  if (kv ws "hv").getD "0" != "1" then fun _ => some true else
+  match (parseHaving ws).bind newEvaluator with
+  | none => fun _ => none
+  | some e => fun r => match evalH S r e with
+    | .ok b => some b
+    | .error _ => none
+
+def parseDStmtS (S : Strs) (ws : List String) : Option DStmt := do
+  let q ← parseStmt ws
+  pure {
+    keep := keepOf S ws
+    kind := ← parseKind (← kv ws "ty")
+    graphNames := ← listOf "," hexStr (← kv ws "gn")
+    inputs := q.graphs
+    outputs := ← listOf "," hexStr (← kv ws "og")
+    data := ← listOf ";" parseTripleF (← kv ws "data")
+    ccs := ← listOf ";" parseCC (← kv ws "cc")
+    outBindings := ← listOf "," hexStr (← kv ws "outb")
+    clauses := q.clauses
+    lower := q.lower
+    upper := q.upper }
+
 def parseDStmt (ws : List String) : Option DStmt := do
   let q ← parseStmt ws
   pure {
@@ -65,11 +90,17 @@ def parseDStmt (ws : List String) : Option DStmt := do
 def step (st : St) (line : String) : St × String :=
   match words line with
   | ["reset"] => ({}, "ok")
-  | "T" :: tid :: s :: p :: o :: _ =>
+  | "T" :: tid :: s :: p :: o :: more =>
     let r : Option (Nat × Triple) := do
       pure (← tid.toNat?, ⟨← parseNode (fields s), ← parsePred (fields p), ← parseObj (fields o)⟩)
     match r with
-    | some x => ({ st with uni := x :: st.uni }, "T ok")
+    | some x =>
+      let view : TView := match more with
+        | [pstr, str, _sstr, ostr] =>
+          { ks := [], pid := [], pnano := none, ko := [], pstr := (unhexBytes pstr).getD [], str := (unhexBytes str).getD [],
+            ostr := (unhexBytes ostr).getD [] }
+        | _ => { ks := [], pid := [], pnano := none, ko := [] }
+      ({ st with uni := x :: st.uni, views := (x.1, x.2, view) :: st.views }, "T ok")
     | none => (st, "bad-op")
   | ["new", n] =>
     match unhexBytes n with
@@ -91,7 +122,7 @@ def step (st : St) (line : String) : St × String :=
   | ["D"] => (st, dump st.store)
   | "X" :: ws =>
     if ws.contains "-" && (kv ws "ty").isNone then (st, "reject") else
-    match parseDStmt ws with
+    match parseDStmtS (mkStrs st.views) ws with
     | none => (st, "bad-op")
     | some d =>
       let (s', out) := exec st.store d
